@@ -82,6 +82,15 @@ func (h *hist) singleChildFree() bool {
 	return true
 }
 
+func (h *hist) anyNegLen() bool {
+	for _, e := range h.p.E {
+		if e.Len < NILU {
+			return true
+		}
+	}
+	return false
+}
+
 func (h *hist) allLens() bool {
 	for _, e := range h.p.E {
 		if e.Len < 0 {
@@ -225,8 +234,8 @@ func opRerootOutGroup(h *hist) *Event {
 }
 
 func opRerootMidPoint(h *hist) *Event {
-	if h.halv >= 12 || !h.allLens() {
-		return nil
+	if h.halv >= 12 || !h.allLens() || h.anyNegLen() {
+		return nil // "the midpoint of the longest path" presupposes lengths that are present and not negative
 	}
 	ev := &Event{Op: "RerootMidPoint"}
 	guard(ev, func() error { return h.t.RerootMidPoint() })
@@ -887,6 +896,9 @@ func runEditHistories(cfg editCfg, from, to int, path string) (events int, ops m
 		}
 		if cfg.prop == "C05" && r.Intn(3) == 0 {
 			gp.LenTies = true
+		}
+		if (cfg.prop == "C05" || cfg.prop == "C06" || cfg.prop == "C03" || cfg.prop == "C15") && r.Intn(5) == 0 {
+			gp.PNegLen = 0.12 // negative branch lengths (neighbour-joining trees have them)
 		}
 		if (cfg.prop == "C06" || cfg.prop == "C03" || cfg.prop == "C15") && r.Intn(4) == 0 {
 			gp.PSingle = 0.2 // chains of single-child nodes in the initial tree
